@@ -1391,3 +1391,141 @@ func allocHoldsReceiverCell(al *ssa.Alloc) bool {
 	}
 	return false
 }
+
+// ---------------------------------------------------------------------------
+// R-EXISTS-BY-ID (C13): a predicate that wraps the registry's id look-up and is used to decide
+// whether a caller-supplied string may be written as a style reference answers true only where the
+// look-up BY ID succeeded.  In a bool-valued module function that calls StyleExists(p)/GetStyle(p)
+// on one of its string parameters, every `true` result lies on the found-edge of such a look-up of
+// that parameter; a second way to say yes (a match by display name, a prefix match) lets a string
+// through that is not the id of any style, and it is then written into w:pStyle as it is.
+// ---------------------------------------------------------------------------
+
+func ruleExistsByID(r *Run) {
+	p := r.P
+	n := 0
+	for _, fn := range p.ModFuncs() {
+		if fn.Pkg == nil || (fn.Pkg.Pkg.Path() != pkgDoc && fn.Pkg.Pkg.Path() != pkgMd) || fn.Parent() != nil {
+			continue
+		}
+		res := fn.Signature.Results()
+		if res.Len() != 1 {
+			continue
+		}
+		if b, ok := res.At(0).Type().Underlying().(*types.Basic); !ok || b.Kind() != types.Bool {
+			continue
+		}
+		// found-edges of id look-ups on a string parameter
+		var found []*ssa.BasicBlock
+		allInstrs(fn, func(in ssa.Instruction) {
+			c, ok := in.(*ssa.Call)
+			if !ok || len(c.Call.Args) < 2 || c.Referrers() == nil {
+				return
+			}
+			cn := calleeName(c)
+			isExists := strings.HasSuffix(cn, "StyleManager).StyleExists")
+			isGet := strings.HasSuffix(cn, "StyleManager).GetStyle")
+			if !isExists && !isGet {
+				return
+			}
+			if _, isPar := c.Call.Args[1].(*ssa.Parameter); !isPar {
+				return
+			}
+			for _, u := range *c.Referrers() {
+				switch y := u.(type) {
+				case *ssa.If:
+					if isExists {
+						found = append(found, y.Block().Succs[0])
+					}
+				case *ssa.BinOp:
+					if isGet && (y.Op == token.NEQ || y.Op == token.EQL) && y.Referrers() != nil {
+						for _, u2 := range *y.Referrers() {
+							if iff, ok := u2.(*ssa.If); ok {
+								if y.Op == token.NEQ {
+									found = append(found, iff.Block().Succs[0])
+								} else {
+									found = append(found, iff.Block().Succs[1])
+								}
+							}
+						}
+					}
+				case *ssa.Return:
+					if isExists {
+						found = append(found, nil) // returned directly: the answer IS the look-up
+					}
+				}
+			}
+		})
+		if len(found) == 0 {
+			continue
+		}
+		// used on the way to an emission? (the predicate's callers, two levels up, set a paragraph style)
+		emits := false
+		seen := map[*ssa.Function]bool{}
+		var up func(g *ssa.Function, d int)
+		up = func(g *ssa.Function, d int) {
+			if seen[g] || d > 2 {
+				return
+			}
+			seen[g] = true
+			allInstrs(g, func(in ssa.Instruction) {
+				if c, ok := in.(*ssa.Call); ok && strings.HasSuffix(calleeName(c), "Paragraph).SetStyle") {
+					emits = true
+				}
+				if st, ok := in.(*ssa.Store); ok {
+					if fv, _ := fieldOfAddr(st.Addr); fv != nil && fv.Name() == "Val" {
+						if o := fieldOwner(p, fv); o != nil && (o.Obj().Name() == "ParagraphStyle" || o.Obj().Name() == "TableStyle") {
+							emits = true
+						}
+					}
+				}
+			})
+			for caller := range p.callersIndex()[g] {
+				up(topLevel(caller), d+1)
+			}
+		}
+		up(fn, 0)
+		if !emits {
+			continue
+		}
+		n++
+		bad := ""
+		var badPos token.Pos
+		for _, ret := range returnsOf(fn) {
+			if len(ret.Results) != 1 {
+				continue
+			}
+			check := func(v ssa.Value, from *ssa.BasicBlock) {
+				c, ok := v.(*ssa.Const)
+				if !ok || c.Value == nil || c.Value.String() != "true" {
+					return
+				}
+				okEdge := false
+				for _, f := range found {
+					if f != nil && (f == from || f.Dominates(from)) {
+						okEdge = true
+					}
+				}
+				if !okEdge {
+					bad = "it can answer true at " + p.pos(ret.Pos()) + " without the look-up by id having succeeded"
+					badPos = ret.Pos()
+				}
+			}
+			if ph, ok := ret.Results[0].(*ssa.Phi); ok {
+				for i, e := range ph.Edges {
+					check(e, ph.Block().Preds[i])
+				}
+			} else {
+				check(ret.Results[0], ret.Block())
+			}
+		}
+		pos := fn.Pos()
+		if bad != "" && badPos.IsValid() {
+			pos = badPos
+		}
+		r.Check("exists-by-id", shortName(fn), pos, bad == "",
+			fmt.Sprintf("%s decides whether a string names a registered style: %s", shortName(fn),
+				map[bool]string{true: "it says yes only where the registry's look-up by id found it", false: bad + " — a string that is not a style id (a display name, a near match) is accepted and then written into w:pStyle unchanged, naming a style word/styles.xml does not define"}[bad == ""]))
+	}
+	r.Count("style_existence_predicates_guarding_emission", n)
+}
